@@ -1,8 +1,12 @@
 #!/bin/sh
-# usage: tools/try_seed.sh <patch.diff> <Cxx> [tier]   — apply, run check, revert
+# usage: tools/try_seed.sh <patch.diff> <Cxx> [tier]
+# runs a check against a scratch worktree of /repo with the patch applied (never touches /repo itself)
 P="$1"; ID="$2"; TIER="${3:-quick}"
-git -C /repo status --short | grep -q . && { echo "repo dirty"; exit 2; }
-git -C /repo apply "$P" || { echo "patch does not apply"; exit 2; }
-cd /verif && ./check "$ID" --tier "$TIER" 2>&1 | tail -6
-git -C /repo checkout -- .
-git -C /repo status --short
+NAME=$(basename $(dirname "$P"))-$ID-$$
+WT=/tmp/try-$NAME; OUTD=/tmp/try-out-$NAME
+git -C /repo worktree add -q --detach $WT HEAD || exit 2
+if ! git -C $WT apply "$P"; then echo "patch does not apply"; git -C /repo worktree remove --force $WT; exit 2; fi
+mkdir -p $OUTD
+cd /verif && VERIF_REPO=$WT VERIF_OUT=$OUTD ./check "$ID" --tier "$TIER" 2>&1 | tail -6
+ls $OUTD/replays 2>/dev/null | head -3
+git -C /repo worktree remove --force $WT
